@@ -65,7 +65,10 @@ def _build(case, scheme=0):
         if ps:
             decl += ':' + ','.join(ps)
         cmds.append((decl, 'help %d' % i))
-    parser = cli_tools.ArgParser(commands=cmds, _no_log_file=True)
+    if case.get('explicit_default'):
+        parser = cli_tools.ArgParser(commands=cmds, default_command=names[case['default'] - 1], _no_log_file=True)
+    else:
+        parser = cli_tools.ArgParser(commands=cmds, _no_log_file=True)
     return parser, names, cmds
 
 
@@ -201,6 +204,13 @@ def _has_diamond(case):
 def _job(case):
     viol, drift, np_ = check_case(case)
     viol = [v + (0,) for v in viol]
+    # the default command named explicitly: the LAST real command instead of the first one
+    real = [i + 1 for i in range(len(case['parents'])) if not case['internal'][i]]
+    if len(real) > 1:
+        c2 = dict(case, default=real[-1], explicit_default=True)
+        v2, d2, n2 = check_case(c2)
+        viol += [(w + ' [default_command=%s given explicitly]' % _names(case, 0)[real[-1] - 1], t, a, 'dflt') for w, t, a in v2]
+        np_ += n2
     alt = alt_scheme(case)
     if alt is not None:
         v2, d2, n2 = check_case(case, alt)
@@ -274,7 +284,14 @@ def run(ctx):
 
 
 def replay(ctx, case):
-    viol, _, _ = check_case(case['graph'], case.get('scheme', 0))
+    g = case['graph']
+    if case.get('scheme') == 'dflt':
+        real = [i + 1 for i in range(len(g['parents'])) if not g['internal'][i]]
+        g = dict(g, default=real[-1], explicit_default=True)
+        viol, _, _ = check_case(g)
+        viol = [(w + ' [default_command=%s given explicitly]' % _names(g, 0)[real[-1] - 1], t, a) for w, t, a in viol]
+    else:
+        viol, _, _ = check_case(g, case.get('scheme', 0))
     if case.get('argv') is None:
         return viol[0][0] if viol else None
     for what, tags, argv in viol:
